@@ -298,7 +298,24 @@ func (t *tr) finish() {
 						}
 						continue
 					}
-					t.assert(t.spec(cl.Expr, sc), "post", cl.Label, t.u.Body.End(), "postcondition: "+cl.Text)
+					pob := t.assert(t.spec(cl.Expr, sc), "post", cl.Label, t.u.Body.End(), "postcondition: "+cl.Text)
+					if pob != nil && t.heapUntouched() {
+						rsc := t.unitSpecCtx(Env{})
+						for i, rv := range t.results {
+							r := Term{S: fmt.Sprintf("rr$%d", i), Sort: rv.Sort, T: rv.T}
+							rsc.vars[fmt.Sprintf("result%d", i)] = r
+							if con != nil && i < len(con.ResultNames) {
+								rsc.vars[con.ResultNames[i]] = r
+							} else if n := t.u.Sig.Results().At(i).Name(); n != "" && n != "_" {
+								rsc.vars[n] = r
+							}
+							if len(t.results) == 1 {
+								rsc.vars["result"] = r
+							}
+						}
+						rsc.where = cl.Where
+						pob.ReplayF = t.spec(cl.Expr, rsc).S
+					}
 				}
 			}
 		}
@@ -328,6 +345,15 @@ func (t *tr) finish() {
 		}
 	}
 	t.cur = nil
+}
+
+func (t *tr) heapUntouched() bool {
+	for v := range t.touched {
+		if v != t.allocTop {
+			return false
+		}
+	}
+	return true
 }
 
 func (t *tr) knownFor(label string) *Clause {
